@@ -98,6 +98,47 @@ check('C11', 'exploration',
       "Reference codec written from the Engine.IO v4 text; TotalAlloc on a single goroutine as allocation measure with an honest-frame control; only the framer on io.Reader/io.Writer is exercised, not QUIC.",
       "differential testing vs independent reference codec; exhaustive length enumeration; fuzzing under recover(); child-process allocation monitor", "DESIGN.md §3 C11")
 
+check('C07', 'fault_enumeration',
+      "eio<->eio rig (real Engine.IO server and real Go client) through a TCP fault proxy that slows the WebSocket upgrade connection so that numbered text/binary messages of both sides keep flowing "
+      "through the swap, or refuses / stalls (1 s timeouts) / cuts it at every 8th (quick: 24th) byte of the websocket byte stream in each direction, under three traffic patterns. Oracle: multiset "
+      "equality of sent and received numbers at a fence (exactly once while the connection lives, at most once when it legitimately dies after the client swapped), TransportName() on both "
+      "sides, close callbacks counted, Send bounded by a 60 s hang watchdog.",
+      "A cut after the client swapped legitimately kills the connection; order across the swap is not demanded; polling->WebTransport (QUIC) is not exercised (framer covered by C11).",
+      "fault proxy on the upgrade connection + numbered-message multiset oracle + hang watchdog", "DESIGN.md §3 C07")
+
+check('C12', 'exploration',
+      "Real server on loopback; the finite admission matrix is enumerated completely in both tiers: 66 namespace-middleware chains (length 0..5 x first rejection position x kind error/string/struct/map) x 2 "
+      "namespaces x {1, 8 concurrent clients} x {Go client, raw peer}. Safety facts (order, nothing listed / in a room / reachable by a broadcast before all middlewares accepted or after a rejection, "
+      "handler after rejection) are checked on a logical-clock log with state snapshots and tokenised broadcasts taken inside the parked middlewares; CONNECT / CONNECT_ERROR payloads and broadcast "
+      "non-delivery are observed on the wire by an independent peer behind an acked fence. Event middlewares: 10 configurations x 7 handler signatures x 2 client kinds, one event in flight per socket.",
+      "Client<->socket mapping through the CONNECT auth payload; fence soundness relies on one FIFO packet queue per connection; absence concluded only after fence + 15 s. A structured rejection carried in the 'message' field is counted, not flagged (library design).",
+      "recorded-history monitor over an exhaustively enumerated configuration space; in-middleware snapshots; raw wire observer with positive control", "DESIGN.md §3 C12")
+
+check('C13', 'exploration',
+      "Enforcement: an independent raw peer sends one message of transport-level size L-1, L, L+1, 2L, 10L and seeded sizes declared four ways (POST with Content-Length, chunked POST, websocket text, websocket "
+      "binary) to real servers with MaxBufferSize 200, 4096, default 1e6, disabled; monitors: server packet callback (length + content hash), close callback, live-session count, what the sender saw. "
+      "Acceptance: real Go client <-> real server over polling and websocket, both directions, text and binary, at the frame-header steps, the 32 KiB library default, L-1 and L, incl. multi-packet Send. "
+      "Batcher: the client's real writeWritablePackets behind VerifSplitBatches enumerated exhaustively (thorough: all vectors of <= 6 data lengths over {0,1,2,3,5,8,13} x all text/binary assignments x "
+      "maxPayload 0..45) with pointer-exact conservation and 'every multi-packet batch fits maxPayload'.",
+      "Size = size as the transport sees it; limit n admits exactly n bytes; absence verdicts after 15 s; the exhaustive flag refers to the batcher part only.",
+      "raw peer with server-side callback recorder (size-declaration matrix) + exactly-once monitor + exhaustive enumeration of the real batch splitter", "DESIGN.md §3 C13")
+
+check('C14', 'fault_enumeration',
+      "Silent black-holes (TCP stays open, data and FIN dropped) of a real eio server <-> real Go eio client link at 4 (quick) / 8 (thorough) placements over the heartbeat schedule (time-anchored before a ping, "
+      "event-anchored between ping and pong and after the pong; 'upgrading': at the ws upgrade request, mid-handshake, at UpgradeDone, at the server's transport switch) x {both, c2s-only, s2c-only} x "
+      "{polling, websocket, upgraded, upgrading} x (pingInterval, pingTimeout) in {(1,1),(2,1)} quick / {1,2,3 s}^2 thorough; plus live-peer trials (idle and phase-offset traffic over 5 heartbeat periods). "
+      "Oracle: every side that lost its peer runs OnClose within t0+pingInterval+pingTimeout+1.5 s with reason 'ping timeout', hearing sides within their stated bound, no premature ping timeout, no close on a healthy link.",
+      "Local strict black-hole relay; monotonic clock; 5 ms scheduler-jitter canary (stall > 250 ms => trial inconclusive, 2 retries); 1.5 s slack; not run under -race.",
+      "fault injection with event-synchronous placement + bracketed time bounds + jitter canary", "DESIGN.md §3 C14")
+
+check('C18', 'exploration',
+      "The real handlerStore and eventHandlerStore stepped in lock-step with a set-valued reference model on seeded On/Once/Off/OffAll/Fire sequences (20k/300k per store) and on every program of length <= 4 "
+      "(thorough <= 5) over 20 operations x 3 handlers, with per-operation blame and shrinking; the same model through all 17 public lifecycle families, the 3 OnEvent/OnceEvent/OffEvent families and 4 OffAll "
+      "methods with real occurrences over loopback; Once at-most-once and absence of panics under 8..16 racing goroutines at registry level (counters + porcupine linearizability of recorded histories) and end "
+      "to end; thorough adds a race-detector sub-pass.",
+      "Handlers are distinct function literals (closures of one literal share a code pointer); for a handler registered k times the model accepts 'all removed' or 'one per naming'; 15 s watchdog for absence verdicts; porcupine v1.3.0.",
+      "model-based lock-step (random + bounded-exhaustive) + API-level monitoring with real occurrences + counters/porcupine under concurrency", "DESIGN.md §3 C18")
+
 for pid in ['C01','C02','C03','C04','C05','C06','C07','C08','C10','C11','C12','C13','C14','C15','C16','C17','C18','C19']:
     if pid not in P:
         na(pid, "check not built yet in this round (planned, see DESIGN.md §3); not claimed until its monitor runs clean on the unchanged tree")
